@@ -42,7 +42,7 @@ func c28(c *vc.Ctx) {
 	optLen := vc.Pick(c, 2, 3)
 	parLen := vc.Pick(c, 3, 4)
 	testLen := vc.Pick(c, 4, 5)
-	wallMS := vc.Pick(c, 400, 1500)
+	wallMS := vc.Pick(c, 400, 600)
 	steps := vc.Pick(c, 1500, 4000)
 	menu := c28Stateful(!c.Quick())
 	var core []c28Item
